@@ -869,7 +869,8 @@ func flattenAnonPointer(key string, v SchemaRef, refsToReplace map[string]Schema
 
 	if (!asch.IsSimpleSchema || len(callers) > 1) && !parts.IsSharedParam() && !parts.IsSharedResponse() {
 		debugLog("replace JSON pointer at [%s] by definition: %s", key, v.Ref.String())
-		if err := namer.Name(v.Ref.String(), v.Schema, asch); err != nil {
+		// the key of the target is its decoded JSON pointer, like every other key (the text of a $ref is URL-escaped)
+		if err := namer.Name("#"+v.Ref.GetPointer().String(), v.Schema, asch); err != nil {
 			return err
 		}
 
